@@ -11,12 +11,16 @@
 (* operations through the very same operator (Trace_BinaryReader).         *)
 (*                                                                         *)
 (* One action per public method, at the grain of the code:                 *)
-(*   ReadScope : offset, offset_length, ctxt, read::<T>                    *)
+(*   ReadScope : offset, offset_length, ctxt, read::<T>, read_cache::<T>,  *)
+(*               == (PartialEq), ReadScopeOwned round trip                 *)
 (*   ReadCtxt  : read_u8..read_i64be, read::<T>, read_slice, read_scope,   *)
-(*               read_array, read_array_stride, read_array_upto_hack,      *)
-(*               read_array_dep, read_until_nibble, scope, bytes_available *)
-(*   ReadArray : len, get_item, read_item, last, iter/to_vec,              *)
-(*               iter_res/read_to_vec, binary_search_by, check_index       *)
+(*               read_dep, read_array, read_array_stride,                  *)
+(*               read_array_upto_hack, read_array_dep, read_until_nibble,  *)
+(*               scope, bytes_available                                    *)
+(*   ReadArray : len/is_empty, get_item, read_item, last, iter/to_vec/     *)
+(*               IntoIterator (+ size_hint), iter_res/read_to_vec,         *)
+(*               binary_search_by, check_index; ReadArrayCow Borrowed and  *)
+(*               Owned: len, get_item, read_item, iter, check_index        *)
 (*                                                                         *)
 (* Numbers.  Values are *byte sequences* (the big-endian image of what was *)
 (* read), so no 32-bit limit of TLC is met; for widths <= 3 the numeric    *)
@@ -28,24 +32,62 @@ EXTENDS Integers, Sequences, FiniteSets, SequencesExt, FiniteSetsExt, TLC
 CONSTANT HUGE            \* a number larger than any buffer length / index used
 
 ---------------------------------------------------------------------------
-\* Element types: every ReadUnchecked type is characterised by its SIZE.
+\* Element types.  A ReadUnchecked type is a primitive or is built from primitives by the
+\* tuple impls (arity 2, 3, 4, nestable) and the ReadFrom blanket impl (a newtype has the
+\* encoding of its ReadType).  It is characterised by the *sequence of its primitive fields*:
+\*   SIZE  = the sum of the field sizes            (impl ReadUnchecked for (T1, .., Tn))
+\*   value = the fields decoded one after the other (read_unchecked reads T1, then T2, ...)
 \* The harness binds each name to a concrete Rust type.
-SizeOf(ty) ==
-  CASE ty = "u8"     -> 1   [] ty = "i8"    -> 1
-    [] ty = "u16"    -> 2   [] ty = "i16"   -> 2
-    [] ty = "u24"    -> 3
-    [] ty = "u32"    -> 4   [] ty = "i32"   -> 4
-    [] ty = "u64"    -> 8   [] ty = "i64"   -> 8
-    [] ty = "u8u16"  -> 3   \* (U8, U16Be)
-    [] ty = "u16x3"  -> 6   \* (U16Be, U16Be, U16Be)
-    [] ty = "u8x4"   -> 4   \* (U8, U8, U8, U8)
-    [] ty = "nt16"   -> 2   \* a ReadFrom newtype over U16Be
-    [] ty = "nt32p"  -> 4   \* a ReadFrom newtype over (U16Be, U16Be)
+PrimSize(p) ==
+  CASE p = "u8"  -> 1   [] p = "i8"  -> 1
+    [] p = "u16" -> 2   [] p = "i16" -> 2
+    [] p = "u24" -> 3
+    [] p = "u32" -> 4   [] p = "i32" -> 4
+    [] p = "u64" -> 8   [] p = "i64" -> 8
+
+PrimTypes == {"u8","i8","u16","i16","u24","u32","i32","u64","i64"}
+
+Composite ==
+  [ u8u16   |-> <<"u8","u16">>,                  \* (U8, U16Be)
+    u16x3   |-> <<"u16","u16","u16">>,           \* (U16Be, U16Be, U16Be)
+    u8x4    |-> <<"u8","u8","u8","u8">>,         \* (U8, U8, U8, U8)
+    nt16    |-> <<"u16">>,                       \* ReadFrom newtype over U16Be
+    nt32p   |-> <<"u16","u16">>,                 \* ReadFrom newtype over (U16Be, U16Be)
+    \* tuples whose fields ALL differ in size; over the rotations every position of every
+    \* arity holds every size of {1, 2, 4, 8} once
+    p24     |-> <<"u16","u32">>,                 \* (U16Be, U32Be)
+    p48     |-> <<"u32","u64">>,                 \* (U32Be, U64Be)
+    p81     |-> <<"u64","u8">>,                  \* (U64Be, U8)
+    t124    |-> <<"u8","u16","u32">>,            \* (U8, U16Be, U32Be)
+    t248    |-> <<"u16","u32","u64">>,
+    t481    |-> <<"u32","u64","u8">>,
+    t812    |-> <<"u64","u8","u16">>,
+    q1248   |-> <<"u8","u16","u32","u64">>,      \* (U8, U16Be, U32Be, U64Be)
+    q2481   |-> <<"u16","u32","u64","u8">>,
+    q4812   |-> <<"u32","u64","u8","u16">>,
+    q8124   |-> <<"u64","u8","u16","u32">>,
+    ts132   |-> <<"i8","u24","i16">>,            \* (I8, U24Be, I16Be)
+    n21x84  |-> <<"u16","u8","u64","u32">>,      \* ((U16Be, U8), (U64Be, U32Be))   nested
+    ntq4182 |-> <<"u32","u8","u64","u16">>,      \* newtype over (U32Be, U8, U64Be, U16Be)
+    ntt412  |-> <<"u32","u8","u16">> ]           \* newtype over (U32Be, U8, U16Be)
+
+CompositeTypes == DOMAIN Composite
+AllTypes == PrimTypes \cup CompositeTypes
+\* composite types whose fields all differ in size
+AllDiffTypes == {"u8u16","p24","p48","p81","t124","t248","t481","t812","q1248","q2481","q4812","q8124",
+                 "ts132","n21x84","ntq4182","ntt412"}
+
+FieldsOf(ty) == IF ty \in CompositeTypes THEN Composite[ty] ELSE <<ty>>
+
+SumSizes(F) == FoldLeft(LAMBDA acc, p : acc + PrimSize(p), 0, F)
+SizeTab == TLCEval([ty \in AllTypes |-> SumSizes(FieldsOf(ty))])
+SizeOf(ty) == SizeTab[ty]
+
+\* offset of field j inside the encoding = the sizes of the fields before it
+FieldOff(F, j) == SumSizes(SubSeq(F, 1, j - 1))
 
 Signed(ty) == ty \in {"i8", "i16", "i32", "i64"}
 Numeric(ty) == ty \in {"u8", "i8", "u16", "i16", "u24"}
-
-AllTypes == {"u8","i8","u16","i16","u24","u32","i32","u64","i64","u8u16","u16x3","u8x4","nt16","nt32p"}
 
 ---------------------------------------------------------------------------
 \* HUGE-aware arithmetic (HUGE absorbs; HUGE * 0 = 0 as in the integers).
@@ -57,20 +99,34 @@ Add(a, b) == IF IsHuge(a) \/ IsHuge(b) THEN HUGE
              ELSE IF a + b >= HUGE THEN HUGE ELSE a + b
 Min2(a, b) == IF a <= b THEN a ELSE b
 
+\* What the harness can tell about a position: exact up to ObsLimit, "huge" beyond (the harness
+\* logs every usize above ObsLimit as HUGE, so the two sides agree whatever the concrete value).
+ObsLimit == 30000
+BaseObs(b) == IF b > ObsLimit THEN HUGE ELSE b
+
 ---------------------------------------------------------------------------
 \* Objects.  One record shape for all three kinds keeps TLC's fingerprints simple.
-\*   scope : window [lo, lo+len) of the root (0-based lo)
-\*   ctxt  : window + cursor off (0 <= off <= len)
+\*   scope : window [lo, lo+len) of the root (0-based lo), and its *base*
+\*   ctxt  : window + cursor off (0 <= off <= len), base of its scope
 \*   array : window of n*stride bytes, n elements of `size` bytes every `stride` bytes
 \* An empty window has no position: lo is canonically 0 when len = 0.
-Obj(kind, lo, len, off, n, stride, size) ==
+\* base is ReadScope.base: the position the scope claims to have, base(new(..)) = 0,
+\* base(s.offset(k)) = base(s) + k (saturating).  It is what ReadCache keys on and part of
+\* PartialEq.  For a window derived from the root by offset / offset_length / read_scope /
+\* ctxt().scope() it equals lo (design invariant PositionKept); a scope the *caller* makes with
+\* ReadScope::new from a slice (read_slice, read_until_nibble, read_dep) restarts at 0; an empty
+\* window keeps a base although it has no lo.
+\* For an array the base of its scope shows only to a ReadBinaryDep element type (which is handed a
+\* context); arrays of ReadUnchecked elements carry base 0.
+Obj(kind, lo, len, off, n, stride, size, base) ==
   [kind |-> kind, lo |-> IF len = 0 THEN 0 ELSE lo, len |-> len, off |-> off,
-   n |-> n, stride |-> stride, size |-> size]
-Scope(lo, len)                == Obj("scope", lo, len, 0, 0, 0, 0)
-Ctxt(lo, len, off)            == Obj("ctxt", lo, len, off, 0, 0, 0)
-Array(lo, n, stride, size)    == Obj("array", lo, Mul(n, stride), 0, n, stride, size)
+   n |-> n, stride |-> stride, size |-> size, base |-> base]
+Scope(lo, len, base)             == Obj("scope", lo, len, 0, 0, 0, 0, base)
+Ctxt(lo, len, off, base)         == Obj("ctxt", lo, len, off, 0, 0, 0, base)
+Array(lo, n, stride, size, base) == Obj("array", lo, Mul(n, stride), 0, n, stride, size, base)
 
-InitState(root) == [root |-> root, objs |-> <<Scope(0, Len(root))>>]
+\* cache: what one ReadCache per element type holds - entries [ty, base, v, num]
+InitState(root) == [root |-> root, objs |-> <<Scope(0, Len(root), 0)>>, cache |-> {}]
 
 \* Bytes [lo+a, lo+a+k) of the root as a sequence, and their 0-based indices.
 Bytes(st, lo, k)   == SubSeq(st.root, lo + 1, lo + k)
@@ -91,15 +147,19 @@ BE(bs, signed) == LET u == BEu(bs) IN
 \*   v       : bytes of the value(s) returned (concatenated for iteration), big-endian
 \*   num     : numeric value for widths <= 3 (0 otherwise)
 \*   cnt     : a count result (len, number of items iterated, search index, 0/1 for booleans)
-\*   new     : <<lo, len, 0, 0>> of the scope/context created, <<-1, -1, n, -1>> for an array, or <<>>
+\*   new     : <<lo, len, base, eq>> of the scope/context created, <<-1, -1, n, -1>> for an array, or <<>>
+\*             (eq = 1: the scope compares equal to an independently built scope of that base and bytes)
 \*   rem     : bytes left after the cursor of the target context after the call (-1: n/a)
 \*   touched : sorted root indices read through the unchecked primitives
+\*   aux     : further integers an operation exposes (is_empty, size_hint, item bases ...), else <<>>
 Obs(ok, err, v, num, cnt, new, rem, touched) ==
   [ok |-> ok, err |-> err, v |-> v, num |-> num, cnt |-> cnt, new |-> new, rem |-> rem,
-   touched |-> SortedSeq(touched)]
-\* the window of a new scope/context is observable (data() pointer and length); of a new array
-\* only the element count is (its window shows in what its elements touch)
-NewOf(o) == IF o.kind = "array" THEN <<-1, -1, o.n, -1>> ELSE <<o.lo, o.len, 0, 0>>
+   touched |-> SortedSeq(touched), aux |-> <<>>]
+WithAux(obs, aux) == [obs EXCEPT !.aux = aux]
+\* the window of a new scope/context is observable (data() pointer and length) and so is its base
+\* (Debug output, PartialEq, ReadCache); of a new array only the element count is (its window shows
+\* in what its elements touch)
+NewOf(o) == IF o.kind = "array" THEN <<-1, -1, o.n, -1>> ELSE <<o.lo, o.len, BaseObs(o.base), 1>>
 
 Rem(c) == c.len - c.off
 
@@ -119,10 +179,11 @@ Fail(st, t, err) ==      \* no effect: state unchanged, nothing touched
 ---------------------------------------------------------------------------
 \* ReadScope
 
-\* offset(k): the suffix window, empty when k is beyond the end.  Infallible.
+\* offset(k): the suffix window, empty when k is beyond the end.  Infallible.  base += k.
 DoOffset(st, t, k) ==
   LET s == st.objs[t]
-      o == IF ~IsHuge(k) /\ k <= s.len THEN Scope(s.lo + k, s.len - k) ELSE Scope(0, 0)
+      b == Add(s.base, k)
+      o == IF ~IsHuge(k) /\ k <= s.len THEN Scope(s.lo + k, s.len - k, b) ELSE Scope(0, 0, b)
   IN Push(st, o, Obs(TRUE, "", <<>>, 0, 0, NewOf(o), -1, {}))
 
 \* The rule of offset_length, shared with read_scope:
@@ -133,25 +194,68 @@ OffLenResult(len, k, n) ==
        IF ~IsHuge(n) /\ n <= avail THEN "Ok" ELSE "Eof"
   ELSE "BadOffset"
 
+\* the window offset_length(k, n) yields on a window (lo, len, base) when OffLenResult is Ok
+SubScope(lo, len, base, k, n) ==
+  IF ~IsHuge(k) /\ k <= len THEN Scope(lo + k, n, Add(base, k)) ELSE Scope(0, 0, Add(base, k))
+
 DoOffsetLength(st, t, k, n) ==
   LET s == st.objs[t]  r == OffLenResult(s.len, k, n) IN
   IF r = "Ok"
-  THEN LET o == Scope(s.lo + k, n) IN Push(st, o, Obs(TRUE, "", <<>>, 0, 0, NewOf(o), -1, {}))
+  THEN LET o == SubScope(s.lo, s.len, s.base, k, n) IN
+       Push(st, o, Obs(TRUE, "", <<>>, 0, 0, NewOf(o), -1, {}))
   ELSE Fail(st, t, r)
 
 DoCtxt(st, t) ==
-  LET s == st.objs[t]  o == Ctxt(s.lo, s.len, 0) IN
+  LET s == st.objs[t]  o == Ctxt(s.lo, s.len, 0, s.base) IN
   Push(st, o, Obs(TRUE, "", <<>>, 0, 0, NewOf(o), -1, {}))
 
-\* Decoding of one element of type ty at absolute position p (must be inside the window).
+\* Decoding of one element of type ty at absolute position p (must be inside the window):
+\* field by field, each field at the offset given by the sizes of the fields before it.
+DecodeAt(st, ty, p) ==
+  LET F == FieldsOf(ty) IN
+  FlattenSeq([j \in 1 .. Len(F) |-> Bytes(st, p + FieldOff(F, j), PrimSize(F[j]))])
+
 ValObs(st, ty, p, new, rem) ==
-  LET k == SizeOf(ty)  bs == Bytes(st, p, k) IN
+  LET k == SizeOf(ty)  bs == DecodeAt(st, ty, p) IN
   Obs(TRUE, "", bs, IF Numeric(ty) THEN BE(bs, Signed(ty)) ELSE 0, 0, new, rem, Idx(p, k))
 
 \* scope.read::<T>() : a fresh context, one read, context dropped.
 DoScopeRead(st, t, ty) ==
   LET s == st.objs[t] IN
   IF SizeOf(ty) <= s.len THEN Keep(st, ValObs(st, ty, s.lo, <<>>, -1)) ELSE Fail(st, t, "Eof")
+
+\* scope.read_cache::<T>(cache): the value stored under the scope's base if there is one
+\* (nothing is read then), else read::<T>() whose success is stored under the base.
+CacheHits(st, ty, b) == {e \in st.cache : e.ty = ty /\ e.base = b}
+DoReadCache(st, t, ty) ==
+  LET s == st.objs[t]  hits == CacheHits(st, ty, s.base) IN
+  IF hits # {}
+  THEN LET e == CHOOSE e \in hits : TRUE IN
+       Keep(st, Obs(TRUE, "", e.v, e.num, 0, <<>>, -1, {}))
+  ELSE IF SizeOf(ty) <= s.len
+  THEN LET obs == ValObs(st, ty, s.lo, <<>>, -1) IN
+       [st |-> [st EXCEPT !.cache = @ \cup {[ty |-> ty, base |-> s.base, v |-> obs.v, num |-> obs.num]}],
+        obs |-> obs]
+  ELSE Fail(st, t, "Eof")
+
+\* scope == other (derived PartialEq): same base and the same bytes (contents, not addresses).
+\* Dev_HugeBaseEq: two bases beyond HUGE are both just "huge" to the model (the arguments that led
+\* there were logged as HUGE); whether they are the same number is not known, so for two different
+\* objects with huge bases and equal bytes either answer conforms.
+ScopeEqKnown(st, t, u) == t = u \/ ~(IsHuge(st.objs[t].base) /\ IsHuge(st.objs[u].base))
+DoScopeEq(st, t, u) ==
+  LET s == st.objs[t]  x == st.objs[u]
+      eq == s.base = x.base /\ Bytes(st, s.lo, s.len) = Bytes(st, x.lo, x.len) IN
+  Keep(st, Obs(TRUE, "", <<>>, 0, IF eq THEN 1 ELSE 0, <<>>, -1, {}))
+ScopeEqConforms(st, t, u, o) ==
+  LET want == DoScopeEq(st, t, u).obs IN
+  IF ScopeEqKnown(st, t, u) \/ want.cnt = 0 THEN o = want
+  ELSE o.cnt \in {0, 1} /\ o = [want EXCEPT !.cnt = o.cnt]
+
+\* ReadScopeOwned::new(scope).scope(): a copy with the same base and bytes (cnt: it compares equal).
+DoScopeOwned(st, t) ==
+  LET s == st.objs[t] IN
+  Keep(st, Obs(TRUE, "", <<>>, 0, 1, <<-1, s.len, BaseObs(s.base), 1>>, -1, {}))
 
 ---------------------------------------------------------------------------
 \* ReadCtxt
@@ -166,11 +270,12 @@ DoRead(st, t, ty) ==
 
 \* read_scope(n) / read_slice(n): the next n bytes as a window.  Every failure is Eof.
 \* (At the very end of the window offset_length answers BadOffset for n > 0; read_scope
-\* reports that as Eof too.)
+\* reports that as Eof too.)  read_scope's window has base + cursor; a slice has no base: the
+\* harness wraps it with ReadScope::new, base 0.
 DoReadScope(st, t, n, slice) ==
   LET c == st.objs[t] IN
   IF OffLenResult(c.len, c.off, n) = "Ok"
-  THEN LET o  == Scope(c.lo + c.off, n)
+  THEN LET o  == Scope(c.lo + c.off, n, IF slice THEN 0 ELSE Add(c.base, c.off))
            c2 == [c EXCEPT !.off = c.off + n] IN
        MovePush(st, t, c2, o,
                 Obs(TRUE, "", IF slice THEN Bytes(st, c.lo + c.off, n) ELSE <<>>, 0, 0,
@@ -180,19 +285,19 @@ DoReadScope(st, t, n, slice) ==
 \* read_array::<T>(n), read_array_stride::<T>(n, stride), read_array_dep::<D>(n, size):
 \* n*stride bytes are consumed; an argument that makes n*stride exceed what is left
 \* (in particular any HUGE product) is Eof with no effect.
-DoReadArrayGen(st, t, n, stride, size) ==
+DoReadArrayGen(st, t, n, stride, size, dep) ==
   LET c == st.objs[t]  bytes == Mul(n, stride) IN
   IF OffLenResult(c.len, c.off, bytes) = "Ok"
-  THEN LET a  == Array(c.lo + c.off, n, stride, size)
+  THEN LET a  == Array(c.lo + c.off, n, stride, size, IF dep THEN Add(c.base, c.off) ELSE 0)
            c2 == [c EXCEPT !.off = c.off + bytes] IN
        MovePush(st, t, c2, a, Obs(TRUE, "", <<>>, 0, n, NewOf(a), Rem(c2), {}))
   ELSE Fail(st, t, "Eof")
 
-DoReadArray(st, t, ty, n) == DoReadArrayGen(st, t, n, SizeOf(ty), SizeOf(ty))
+DoReadArray(st, t, ty, n) == DoReadArrayGen(st, t, n, SizeOf(ty), SizeOf(ty), FALSE)
 
 DoReadArrayStride(st, t, ty, n, stride) ==
   IF SizeOf(ty) > stride THEN Fail(st, t, "BadValue")
-  ELSE DoReadArrayGen(st, t, n, stride, SizeOf(ty))
+  ELSE DoReadArrayGen(st, t, n, stride, SizeOf(ty), FALSE)
 
 \* read_array_upto_hack::<T>(n): as many of the n elements as fit.
 DoReadArrayUpto(st, t, ty, n) ==
@@ -206,9 +311,9 @@ DoReadUntilNibble(st, t, x) ==
       cand == {k \in 1 .. (c.len - c.off) : HasNibble(st.root[c.lo + c.off + k], x)} IN
   IF cand = {} THEN Fail(st, t, "Eof") ELSE DoReadScope(st, t, Min(cand), TRUE)
 
-\* ctxt.scope(): the window from the cursor to the end.
+\* ctxt.scope(): the window from the cursor to the end, = scope.offset(cursor).
 DoCtxtScope(st, t) ==
-  LET c == st.objs[t]  o == Scope(c.lo + c.off, c.len - c.off) IN
+  LET c == st.objs[t]  o == Scope(c.lo + c.off, c.len - c.off, Add(c.base, c.off)) IN
   Push(st, o, Obs(TRUE, "", <<>>, 0, 0, NewOf(o), Rem(c), {}))
 
 DoBytesAvailable(st, t) ==
@@ -220,20 +325,31 @@ DoBytesAvailable(st, t) ==
 ItemPos(a, i)   == a.lo + i * a.stride
 ItemBytes(st, a, i) == Bytes(st, ItemPos(a, i), a.size)
 ItemIdx(a, i)   == Idx(ItemPos(a, i), a.size)
+\* base of the context a ReadBinaryDep element i is read from (offset_length(i * stride, size))
+ItemBase(a, i)  == BaseObs(Add(a.base, i * a.stride))
+B01(b) == IF b THEN 1 ELSE 0
 
-DoLen(st, t) ==
-  Keep(st, Obs(TRUE, "", <<>>, 0, st.objs[t].n, <<>>, -1, {}))
+\* len / is_empty, also through ReadArrayCow::Borrowed (aux = <<is_empty, cow len, cow is_empty>>)
+DoLen(st, t, ty) ==
+  LET a == st.objs[t] IN
+  Keep(st, WithAux(Obs(TRUE, "", <<>>, 0, a.n, <<>>, -1, {}),
+                   IF ty = "dep" THEN <<B01(a.n = 0)>> ELSE <<B01(a.n = 0), a.n, B01(a.n = 0)>>))
 
 \* get_item / read_item / ReadArrayCow::{get_item, read_item}
 \* Element type "dep" is the harness's ReadFixedSizeDep type: `size` bytes returned as a slice
-\* (read with read_slice, so nothing goes through the unchecked primitives).
-DoItem(st, t, ty, i, errName) ==
+\* (read with read_slice, so nothing goes through the unchecked primitives) together with the
+\* base of the context it was given (aux).
+\* own: ReadArrayCow::Owned(array.to_vec()) - the vector is made before the operation, the
+\* operation itself reads nothing.
+DoItemGen(st, t, ty, i, errName, own) ==
   LET a == st.objs[t] IN
   IF ~IsHuge(i) /\ i < a.n
   THEN IF ty = "dep"
-       THEN Keep(st, Obs(TRUE, "", ItemBytes(st, a, i), 0, 0, <<>>, -1, {}))
-       ELSE Keep(st, ValObs(st, ty, ItemPos(a, i), <<>>, -1))
+       THEN Keep(st, WithAux(Obs(TRUE, "", ItemBytes(st, a, i), 0, 0, <<>>, -1, {}), <<ItemBase(a, i)>>))
+       ELSE LET o == ValObs(st, ty, ItemPos(a, i), <<>>, -1) IN
+            Keep(st, IF own THEN [o EXCEPT !.touched = <<>>] ELSE o)
   ELSE Fail(st, t, errName)
+DoItem(st, t, ty, i, errName) == DoItemGen(st, t, ty, i, errName, FALSE)
 
 DoLast(st, t, ty) ==
   LET a == st.objs[t] IN
@@ -243,10 +359,22 @@ RECURSIVE Concat(_, _, _)
 Concat(st, a, i) == IF i = a.n THEN <<>> ELSE ItemBytes(st, a, i) \o Concat(st, a, i + 1)
 
 \* iter / to_vec / iter_res / read_to_vec / IntoIterator: exactly elements 0..n-1, in order.
-DoIter(st, t, ty) ==
-  LET a == st.objs[t] IN
-  Keep(st, Obs(TRUE, "", Concat(st, a, 0), 0, a.n, <<>>, -1,
-               IF ty = "dep" THEN {} ELSE UNION {ItemIdx(a, i) : i \in 0 .. (a.n - 1)}))
+\* hint: what the iterator announces - <<lower, upper>> of size_hint on the fresh iterator
+\* (ReadArrayIter, also its ExactSizeIterator::len), and again after the first next() for the
+\* index-counting iterators (iter_res, ReadArrayCow::iter).
+\* own: ReadArrayCow::Owned(to_vec()).iter() - nothing is read by the iteration itself; aux = len, is_empty.
+Pred0(n) == IF n = 0 THEN 0 ELSE n - 1
+DoIter(st, t, ty, hint) ==
+  LET a == st.objs[t]
+      aux == CASE hint = "fresh" -> <<a.n, a.n, a.n>>
+               [] hint = "step"  -> <<a.n, a.n, Pred0(a.n), Pred0(a.n)>>
+               [] hint = "own"   -> <<a.n, B01(a.n = 0), a.n, a.n, Pred0(a.n), Pred0(a.n)>>
+               [] OTHER          -> <<>>
+      bases == IF ty = "dep" /\ hint = "step" THEN [i \in 1 .. a.n |-> ItemBase(a, i - 1)] ELSE <<>>
+  IN
+  Keep(st, WithAux(Obs(TRUE, "", Concat(st, a, 0), 0, a.n, <<>>, -1,
+                       IF ty = "dep" \/ hint = "own" THEN {} ELSE UNION {ItemIdx(a, i) : i \in 0 .. (a.n - 1)}),
+                   aux \o bases))
 
 DoCheckIndex(st, t, i) ==
   LET a == st.objs[t] IN
@@ -290,34 +418,54 @@ Apply(st, o) ==
     [] o.op = "OffsetLength"    -> DoOffsetLength(st, o.t, o.a, o.b)
     [] o.op = "Ctxt"            -> DoCtxt(st, o.t)
     [] o.op = "ScopeRead"       -> DoScopeRead(st, o.t, o.ty)
+    [] o.op = "ReadCache"       -> DoReadCache(st, o.t, o.ty)
+    [] o.op = "ScopeEq"         -> DoScopeEq(st, o.t, o.a)      \* a: the other scope (object number)
+    [] o.op = "ScopeOwned"      -> DoScopeOwned(st, o.t)
     [] o.op = "ReadM"           -> DoRead(st, o.t, o.ty)        \* read_u8 ... read_i64be
     [] o.op = "ReadT"           -> DoRead(st, o.t, o.ty)        \* read::<T>()
     [] o.op = "ReadScope"       -> DoReadScope(st, o.t, o.a, FALSE)
     [] o.op = "ReadSlice"       -> DoReadScope(st, o.t, o.a, TRUE)
+    [] o.op = "ReadDep"         -> DoReadScope(st, o.t, o.a, TRUE)   \* read_dep::<Dep>(n) = n bytes as a slice
     [] o.op = "ReadArray"       -> DoReadArray(st, o.t, o.ty, o.a)
     [] o.op = "ReadArrayStride" -> DoReadArrayStride(st, o.t, o.ty, o.a, o.b)
     [] o.op = "ReadArrayUpto"   -> DoReadArrayUpto(st, o.t, o.ty, o.a)
-    [] o.op = "ReadArrayDep"    -> DoReadArrayGen(st, o.t, o.a, o.b, o.b)
+    [] o.op = "ReadArrayDep"    -> DoReadArrayGen(st, o.t, o.a, o.b, o.b, TRUE)
     [] o.op = "ReadUntilNibble" -> DoReadUntilNibble(st, o.t, o.a)
     [] o.op = "CtxtScope"       -> DoCtxtScope(st, o.t)
     [] o.op = "BytesAvailable"  -> DoBytesAvailable(st, o.t)
-    [] o.op = "Len"             -> DoLen(st, o.t)
+    [] o.op = "Len"             -> DoLen(st, o.t, o.ty)
     [] o.op = "GetItem"         -> DoItem(st, o.t, o.ty, o.a, "None")
     [] o.op = "ReadItem"        -> DoItem(st, o.t, o.ty, o.a, "BadIndex")
     [] o.op = "CowGetItem"      -> DoItem(st, o.t, o.ty, o.a, "None")
     [] o.op = "CowReadItem"     -> DoItem(st, o.t, o.ty, o.a, "BadIndex")
+    [] o.op = "OwnGetItem"      -> DoItemGen(st, o.t, o.ty, o.a, "None", TRUE)
+    [] o.op = "OwnReadItem"     -> DoItemGen(st, o.t, o.ty, o.a, "BadIndex", TRUE)
     [] o.op = "Last"            -> DoLast(st, o.t, o.ty)
-    [] o.op = "Iter"            -> DoIter(st, o.t, o.ty)
-    [] o.op = "ToVec"           -> DoIter(st, o.t, o.ty)
-    [] o.op = "IterRes"         -> DoIter(st, o.t, o.ty)
-    [] o.op = "CowIter"         -> DoIter(st, o.t, o.ty)
+    [] o.op = "Iter"            -> DoIter(st, o.t, o.ty, "fresh")
+    [] o.op = "IntoIter"        -> DoIter(st, o.t, o.ty, "fresh")
+    [] o.op = "ToVec"           -> DoIter(st, o.t, o.ty, "")
+    [] o.op = "IterRes"         -> DoIter(st, o.t, o.ty, "step")
+    [] o.op = "ReadToVec"       -> DoIter(st, o.t, o.ty, "")
+    [] o.op = "CowIter"         -> DoIter(st, o.t, o.ty, "step")
+    [] o.op = "OwnIter"         -> DoIter(st, o.t, o.ty, "own")
     [] o.op = "CheckIndex"      -> DoCheckIndex(st, o.t, o.a)
+    [] o.op = "CowCheckIndex"   -> DoCheckIndex(st, o.t, o.a)
+    [] o.op = "OwnCheckIndex"   -> DoCheckIndex(st, o.t, o.a)
     [] o.op = "Search"          -> DoSearch(st, o.t, o.key)
 
-KnownOps == {"Offset","OffsetLength","Ctxt","ScopeRead","ReadM","ReadT","ReadScope","ReadSlice",
+KnownOps == {"Offset","OffsetLength","Ctxt","ScopeRead","ReadCache","ScopeEq","ScopeOwned",
+             "ReadM","ReadT","ReadScope","ReadSlice","ReadDep",
              "ReadArray","ReadArrayStride","ReadArrayUpto","ReadArrayDep","ReadUntilNibble",
              "CtxtScope","BytesAvailable","Len","GetItem","ReadItem","CowGetItem","CowReadItem",
-             "Last","Iter","ToVec","IterRes","CowIter","CheckIndex","Search"}
+             "OwnGetItem","OwnReadItem","Last","Iter","IntoIter","ToVec","IterRes","ReadToVec","CowIter",
+             "OwnIter","CheckIndex","CowCheckIndex","OwnCheckIndex","Search"}
+
+\* which kind of object an operation applies to (the judge refuses an event on another kind)
+OpKind(op) ==
+  IF op \in {"Offset","OffsetLength","Ctxt","ScopeRead","ReadCache","ScopeEq","ScopeOwned"} THEN "scope"
+  ELSE IF op \in {"ReadM","ReadT","ReadScope","ReadSlice","ReadDep","ReadArray","ReadArrayStride","ReadArrayUpto",
+                  "ReadArrayDep","ReadUntilNibble","CtxtScope","BytesAvailable"} THEN "ctxt"
+  ELSE "array"
 
 ---------------------------------------------------------------------------
 \* Invariants of the design (checked by TLC on every reachable state).
@@ -354,5 +502,25 @@ DerivedInside(pre, post, o, obs) ==
   (obs.ok /\ Len(post.objs) > Len(pre.objs)) =>
      LET x == pre.objs[o.t]  y == post.objs[Len(post.objs)] IN
      WindowOf(y) \subseteq IF x.kind = "ctxt" THEN Idx(x.lo + x.off, x.len - x.off) ELSE WindowOf(x)
+
+\* the field-wise decoding of a type is the SIZE bytes at the position, and SIZE is the sum of the fields
+FieldwiseExact(st, ty, p) ==
+  /\ SizeOf(ty) = SumSizes(FieldsOf(ty))
+  /\ (p + SizeOf(ty) <= Len(st.root) => DecodeAt(st, ty, p) = Bytes(st, p, SizeOf(ty)))
+
+\* a positioned object: its base is where its window starts in the root
+Positioned(x) == x.len = 0 \/ x.base = x.lo
+\* a window carved by the reader out of a positioned object is positioned (a slice re-wrapped by the
+\* caller is not: it restarts at base 0)
+PositionKept(pre, post, o, obs) ==
+  (obs.ok /\ Len(post.objs) > Len(pre.objs) /\ Positioned(pre.objs[o.t])
+   /\ o.op \notin {"ReadSlice", "ReadDep", "ReadUntilNibble"}) =>
+     LET y == post.objs[Len(post.objs)] IN y.kind = "array" \/ Positioned(y)
+\* a cached read through a positioned scope, over a cache filled through positioned scopes, returns
+\* the value located at the start of that scope (what the base-keyed cache relies on)
+CacheLocated(pre, o, obs) ==
+  (o.op = "ReadCache" /\ obs.ok /\ pre.objs[o.t].len > 0 /\ Positioned(pre.objs[o.t])
+   /\ \A e \in pre.cache : e.v = DecodeAt(pre, e.ty, e.base)) =>
+     obs.v = DecodeAt(pre, o.ty, pre.objs[o.t].lo)
 
 =============================================================================
